@@ -66,6 +66,8 @@ func runC12(c *Case) {
 	g := newScriptGen(c)
 	r := c.Rng
 	realm := RealmSetup{RealmSpec: model.RealmSpec{Name: "realm1", AllowDisclose: chance(r, 60), MetaKill: true}, MetaStrict: chance(r, 40)}
+	// in a third of the realms in-process sessions are authenticated like remote ones, so they are not "trusted"
+	realm.RequireLocalAuth = chance(r, 33)
 	var setups []PuppetSetup
 	var script []string
 	mixed := 0
@@ -133,7 +135,7 @@ func runC12(c *Case) {
 			return f
 		}
 		// P0: observer of session meta events (exact), also asks wamp.session.get
-		obsP := join(PuppetSetup{Kind: sim.Local, Realm: realm.Name, AuthID: "erin"})
+		obsP := join(PuppetSetup{Kind: sim.Local, Realm: realm.Name, AuthID: "erin", LocalAuth: realm.RequireLocalAuth})
 		exec(model.Op{Kind: model.OpSubscribe, P: obsP, Req: g.nextReq(obsP), URI: model.TopicSessOnJoin})
 		n := 4 + r.IntN(5)
 		for i := 0; i < n; i++ {
@@ -142,6 +144,12 @@ func runC12(c *Case) {
 				ps.Kind = sim.Local // at least two in-process recipients
 			}
 			ps.Features = feat(chance(r, 55), chance(r, 55))
+			if realm.RequireLocalAuth && ps.Kind == sim.Local {
+				ps.LocalAuth = true
+				if ps.AuthID == "" {
+					ps.AuthID = pick(r, authIDs)
+				}
+			}
 			if ps.Kind.IsWS() {
 				ps.TDetails = wamp.Dict{"auth": wamp.Dict{"cookie": "s3cr3t-cookie", "request": wamp.Dict{"header": wamp.List{"s3cr3t-cookie"}}}}
 				if chance(r, 50) {
